@@ -306,8 +306,9 @@ def classify(prog, obs):
         st.add("caller_saw_the_baseexception")
     if base and obs["exc"].startswith("fault:"):
         st.add("baseexception_replaced_by_a_later_or_earlier_exception")
-    if tf.rollback_left_early(obs) and any(".m." in l for l in obs["locks"]) and tf.oracle(prog, obs, full=True) != tf.oracle(prog, obs):
-        st.add("DEFECT_N1_rollback_left_by_baseexception_other_backend_keeps_its_lock")
+    if any(tr[i].split(".")[1] == "unlock" and any(e.split(".")[1] == "unlock" and e.split(".")[0] != tr[i].split(".")[0]
+                                                     for e in tr[i + 1:]) for i in base):
+        st.add("rollback_went_on_to_the_next_backend_after_an_unlock_ended_with_baseexception")     # class of D36
     if nbacks >= 3 and failed:
         st.add("fault_with_three_backends_in_the_transaction")
     if prog.get("bexc") == "cancel" and obs["body_raised"] and obs["exc"] == "body":
@@ -562,7 +563,6 @@ def run(chk: Check) -> int:
     hist_rel: dict[str, int] = {}
     hist_kind: dict[str, int] = {}
     hist_base_cmd: dict[str, int] = {}
-    n1 = {"runs": 0, "sample": None}
     found_property = 0
     found_corr = 0
     seen_clauses = set()
@@ -597,11 +597,6 @@ def run(chk: Check) -> int:
                 hist_base_cmd[name] = hist_base_cmd.get(name, 0) + 1
             kinds = "".join("B" if tf.fbase(f) else "E" for f in faults) or "-"
             hist_kind[kinds] = hist_kind.get(kinds, 0) + 1
-            if "DEFECT_N1_rollback_left_by_baseexception_other_backend_keeps_its_lock" in st:
-                n1["runs"] += 1
-                if n1["sample"] is None or len(obs["trace"]) < len(n1["sample"]["impl"]["trace"]):
-                    n1["sample"] = {"program": prog, "faults": [f if isinstance(f, int) else list(f) for f in faults],
-                                    "rels": list(rels), "impl": summary(obs)}
             if len(samples) < 4 and len(faults) == len(samples) % 3 and st and len(obs["trace"]) <= 12:
                 samples.append({"program": prog, "faults": [f if isinstance(f, int) else list(f) for f in faults], "rels": list(rels), "impl": summary(obs), "states": sorted(st)})
             bad = tf.oracle(prog, obs)
@@ -688,14 +683,6 @@ def run(chk: Check) -> int:
         "failed_with_baseexception_command_histogram": hist_base_cmd,
         "runs_by_fault_kinds": hist_kind,
         "rollback_loop_model": tf.RB_LOOP,
-        "known_defect_N1": {
-            "what": "Transaction._rollback catches Exception only: when the unlock issued by the rollback of one backend ends with a "
-                    "BaseException (CancelledError) the loop is left and the backends after it keep their locks for the full timeout. "
-                    "The FULL statement about locks fails on these runs; the statement proved for /repo (locks_released_or_self_failed, "
-                    "disjunct RollbackLeftEarly) holds, and implementation == model. See proposed_fixes/C16_rollback_stops_at_baseexception.diff",
-            "runs_of_this_check_that_hit_it": n1["runs"],
-            "smallest_sample": n1["sample"],
-        },
         "interesting_states_runs": interesting,
         "trusted_base": TRUSTED,
         "partial": "not exhibited by the model: a command that takes effect and then reports failure; a cancellation delivered by "
@@ -730,10 +717,6 @@ def replay(chk: Check, path: str) -> int:
         print(f"  {obs['tasks_pending_after_block']} task(s) still running after the block was left; they issued {obs['late_commands']}")
     bad = tf.oracle(prog, obs)
     d = diff(obs, model)
-    if not bad and tf.oracle(prog, obs, full=True):
-        print("note: the FULL lock statement fails on this case - known defect N1 (Transaction._rollback catches Exception only: a "
-              "BaseException in the unlock of one backend leaves the loop, the other backends keep their locks); the statement proved for "
-              "/repo (locks_released_or_self_failed, disjunct RollbackLeftEarly) holds; see proposed_fixes/C16_rollback_stops_at_baseexception.diff")
     if not bad and not d:
         print("replay: property holds and implementation agrees with the model")
         return 0
